@@ -1,5 +1,7 @@
 package redisemu
 
+import "math"
+
 func setAddCommon(ctx *cmdContext, args map[string]any, options bitflags) (output respValue, err error) {
 	keyName := args["key"].(string)
 	members := args["member"].([]any)
@@ -199,6 +201,11 @@ func fnSRandMember(ctx *cmdContext, args map[string]any) (output respValue, err 
 	var countPtr *int
 	count := int(count64)
 	if countSpecified {
+		if count64 < -(math.MaxInt64 / 2) {
+			// the negated count would not be a valid size
+			output.data = respErrorString("ERR value is out of range")
+			return
+		}
 		countPtr = &count
 	}
 
